@@ -194,8 +194,11 @@ let () =
     | "step" ->
         let q = next_int () in let s = next_int () in
         let inval = if s = 256 then 255 else s in
-        (match ceval_tree cfg (step_tree d (nat_of_int q) (n_of_int s)) (n_of_int inval) !cur with
-         | None -> print_endline "UNDEF"
+        let tr = step_tree d (nat_of_int q) (n_of_int s) in
+        (* UNDEF SPIN: the normal form of this step runs out of fuel on some branch - the machine can go round without consuming *)
+        let rec spins t = match t with OutOfFuel -> true | Leaf _ -> false | Act (_, k) -> spins k | Test (_, a, b) -> spins a || spins b in
+        (match ceval_tree cfg tr (n_of_int inval) !cur with
+         | None -> print_endline (if spins tr then "UNDEF SPIN" else "UNDEF")
          | Some (LConsume q', x) -> line cfg ROk (int_of_nat q') 1 x
          | Some (LRet (r, q', adv), x) -> line cfg r (int_of_nat q') (if adv then 1 else 0) x)
     | "guard" -> print_endline (if appends_guarded cfg d then "guarded" else "UNGUARDED")
